@@ -38,6 +38,7 @@ structure Chain where
   height : Nat
   bank : Addr → Denom → Nat
   deleg : Addr → Nat                         -- the hub's delegation per validator
+  delegSet : Addr → Bool                     -- a delegation object exists (survives a slash to 0)
   unbondingQ : List (Addr × Nat × Nat)       -- (validator, amount, completion time), creation order
   pending : Addr → Denom → Nat               -- undistributed rewards of (hub, validator)
   withdrawAddr : Addr
@@ -66,7 +67,7 @@ def block (s : Sys) : Block := { height := s.chain.height, time := s.chain.time 
 /-- `query_all_delegations(who)`; only the hub delegates -/
 def delegationsOf (s : Sys) (who : Addr) : List (Addr × Nat) :=
   if who = hubA then
-    (valUniverse.filter (fun v => s.chain.deleg v > 0)).map (fun v => (v, s.chain.deleg v))
+    (valUniverse.filter (fun v => s.chain.delegSet v)).map (fun v => (v, s.chain.deleg v))
   else []
 
 /-- stable insertion sort ascending by amount (`sort_by(|a,b| a.cmp(b))`) -/
@@ -152,7 +153,7 @@ def regExec (s : Sys) (sender : Addr) (m : RegMsg) : Res (RegSt × List Msg) :=
     let s' := { s with reg := { r with vals := vals } }
     let validators := sortAscAmt s'.regValidatorsRaw
     let d := if r.hub = hubA then s.chain.deleg v else 0
-    if d = 0 then .ok []                                   -- query_delegation returned None
+    if !(r.hub = hubA ∧ s.chain.delegSet v) then .ok []    -- query_delegation returned None
     else if s.chain.noRedelegate v then .ok []             -- can_redelegate < amount
     else
       match calculateDelegations d (validators.map (·.2)) with
@@ -194,13 +195,15 @@ def handle (s : Sys) (m : Msg) : Res (Sys × List Msg) :=
     if !valUniverse.contains v then throw "unknown validator"
     if s.chain.bank who 0 < amt then throw "insufficient funds"
     let s1 := s.setBank who 0 (s.chain.bank who 0 - amt)
-    pure ({ s1 with chain := { s1.chain with deleg := upd s1.chain.deleg v (s1.chain.deleg v + amt) } }, [])
+    pure ({ s1 with chain := { s1.chain with deleg := upd s1.chain.deleg v (s1.chain.deleg v + amt),
+                                             delegSet := upd s1.chain.delegSet v true } }, [])
   | .undelegate who v amt => do
     if who ≠ hubA then throw "unsupported delegator"
     if amt = 0 then throw "zero undelegation"
     if s.chain.deleg v < amt then throw "insufficient delegation"
     pure ({ s with chain := { s.chain with
               deleg := upd s.chain.deleg v (s.chain.deleg v - amt),
+              delegSet := upd s.chain.delegSet v (decide (s.chain.deleg v - amt > 0)),
               unbondingQ := s.chain.unbondingQ ++ [(v, amt, s.chain.time + s.chain.unbondingTime)] } }, [])
   | .redelegate who src dst amt => do
     if who ≠ hubA then throw "unsupported delegator"
@@ -210,10 +213,11 @@ def handle (s : Sys) (m : Msg) : Res (Sys × List Msg) :=
     if s.chain.noRedelegate src then throw "redelegation in progress"
     if s.chain.deleg src < amt then throw "insufficient delegation"
     let d1 := upd s.chain.deleg src (s.chain.deleg src - amt)
-    pure ({ s with chain := { s.chain with deleg := upd d1 dst (d1 dst + amt) } }, [])
+    let e1 := upd s.chain.delegSet src (decide (s.chain.deleg src - amt > 0))
+    pure ({ s with chain := { s.chain with deleg := upd d1 dst (d1 dst + amt), delegSet := upd e1 dst true } }, [])
   | .withdrawReward who v => do
     if who ≠ hubA then throw "unsupported delegator"
-    if s.chain.deleg v = 0 then throw "no delegation"
+    if !s.chain.delegSet v then throw "no delegation"
     -- pay every pending coin to the withdraw address
     let pay (acc : Sys) (d : Denom) : Sys :=
       let amt := acc.chain.pending v d
